@@ -613,7 +613,13 @@ impl AgentStatusSharedState {
                 &format!("{:?}", module),
                 logger::AGENT_LOGGER_KEY,
             );
-            message = format!("{}...", &message[0..MAX_STATUS_MESSAGE_LENGTH]);
+            // cut at the largest char boundary <= MAX_STATUS_MESSAGE_LENGTH: slicing inside
+            // a multi-byte UTF-8 character panics
+            let mut end = MAX_STATUS_MESSAGE_LENGTH;
+            while !message.is_char_boundary(end) {
+                end -= 1;
+            }
+            message = format!("{}...", &message[0..end]);
         }
 
         ProxyAgentDetailStatus {
